@@ -154,12 +154,12 @@ def run(case):
     work = tempfile.mkdtemp(prefix="c04-", dir=SCRATCH)
     try:
         total = case["backlog"] + case["racers"] * case["racerMsgs"] + case["after"] + 2 * case["cycles"] * case["cycleMsgs"]
-        bound = total * case["delayUs"] / 1e6 + 25
+        bound = total * case["delayUs"] / 1e6 + case.get("stallMs", 0) / 1e3 + 25
         attempts = 3
         if HANG_CONFIRMED[0] and not os.environ.get("VERIF_REPLAY"):
             # a hang has been confirmed with the full bound in this run: while shrinking it, a shorter bound keeps the search
             # affordable; the driver replays the final case with the full bound and three attempts before reporting it
-            bound = total * case["delayUs"] / 1e6 * 2 + 6
+            bound = total * case["delayUs"] / 1e6 * 2 + case.get("stallMs", 0) / 1e3 + 6
             attempts = 1
         r = run_child(case, work, bound)
         if r["hung"]:
@@ -201,6 +201,7 @@ def run(case):
         STATS.cls("app_" + case["app"])
         STATS.cls("exit_without_exec", case["stop"] == "exit_return" and case["app"] != "heap" and not case["loopRan"])
         STATS.cls("config_oneline", case["config"] == "oneline")
+        STATS.cls("stalled_delivery_at_stop", case.get("stallMs", 0) > 0 and case["backlog"] > 0)
         STATS.note_case(dict(stop=case["stop"], app=case["app"], subject=case["subject"], config=case["config"], loopRan=case["loopRan"], backlog=min(backlog_at_stop, 50) // 10,
                              delay=case["delayUs"], racers=case["racers"], cycles=case["cycles"], after=min(case["after"], 1)), backlog_at_stop >= 1)
         return analyse(case, r)
@@ -246,6 +247,8 @@ def strategy():
             after=draw(st.sampled_from([0, 0, 1, 5])) if stop in ("reset", "quit") else 0,
             cycles=cycles, cycleMsgs=draw(st.integers(1, 8)) if cycles else 0,
             loopRan=loop_ran, reAsync=draw(st.booleans()) if loop_ran else False,
+            # the delivery of the last queued message takes longer than the 3 s the stop grants the thread to finish
+            stallMs=draw(st.sampled_from([0] * 19 + [3500])) if (config == "fluent" and racers == 0 and backlog > 0 and stop != "exit_call") else 0,
         )
 
     return scen()
